@@ -373,6 +373,19 @@ def native_converters(rnd, n):
         return 'bsf_to_pauli (dense) does not invert on %r' % s
     if n and bp.bsf_to_pauli(csr_matrix(np.asarray(v, dtype='uint8').reshape(1, -1))) != [s]:
         return 'bsf_to_pauli (sparse row) does not invert on %r' % s
+    if n:
+        # the same operator as a sparse row whose stored indices are NOT in ascending order (what scipy gives for rows assembled entry by entry, e.g. through
+        # bsparse.insert_mod2): a sparse row is a valid representation whatever the storage order of its entries
+        vv = np.asarray(v, dtype='uint8')
+        nz = np.nonzero(vv)[0][::-1].astype(np.int32)
+        if len(nz) >= 2:
+            row = csr_matrix((np.ones(len(nz), dtype='uint8'), nz, np.array([0, len(nz)], dtype=np.int32)), shape=(1, 2 * n))
+            if not np.array_equal(row.toarray()[0], vv):
+                return None
+            if bp.bsf_to_pauli(row) != [s]:
+                return 'bsf_to_pauli of a sparse row with stored indices %s gives %r for the operator %r' % (nz.tolist(), bp.bsf_to_pauli(row), s)
+            if bp.bsf_wt(row) != sum(c != 'I' for c in s):
+                return 'bsf_wt of a sparse row with unsorted indices disagrees with the weight of %r' % s
     k = bp.bvector_to_int(v) if n else 0
     if n and not np.array_equal(bp.int_to_bvector(k, n), v):
         return 'int_to_bvector(bvector_to_int(v)) != v for %r' % s
